@@ -6,6 +6,7 @@ import PyamgV.Proofs.C15Reuse
 import PyamgV.Proofs.C15Store
 import PyamgV.Proofs.ExtSpmmMat
 import PyamgV.Proofs.ExtSpmmHier
+import PyamgV.Proofs.ExtC15CanonHier
 
 /-! # C15 — setup is pure and reproducible; built solvers are reusable
 
@@ -111,6 +112,64 @@ restate pstep_hypothesis_satisfiable := PyamgV.Spmm.pairStep_ok
 /-- the instance the driver executes (`ext_convert`) -/
 restate convert_driver := PyamgV.Spmm.CRatInst.valC_toCsrC
 
+/-! ### canonical stored form (extension E41): `Model/ExtC15Canon.lean` models `sum_duplicates()` /
+`eliminate_zeros()` and one real constructor path on arrays; the driver runs them (`ext_c15_canon`) against
+`scipy.sparse` and `pyamg.aggregation.pairwise_aggregation`.  The constructors bring every input that is not CSR /
+BSR to CSR by `csr_array(A)` and nothing else (no `sort_indices`, no `eliminate_zeros` at entry). -/
+/-- two rows strictly sorted by column with the same stored columns and the same sums per column are equal lists -/
+restate canonical_row_unique := PyamgV.Canon.sorted_rows_unique
+/-- two well-formed CSR matrices of one shape whose rows are equal lists have equal `indptr`, `indices`, `data` -/
+restate csr_arrays_ext := PyamgV.Canon.csr_ext
+/-- UNIQUENESS, explicit zeros tracked: canonical (well formed, rows strictly sorted: no duplicates) + same dense
+meaning + same stored pattern => equal arrays -/
+restate canonical_unique := PyamgV.Canon.canonical_unique
+/-- UNIQUENESS: canonical without stored zeros + same dense meaning => equal arrays -/
+restate canonical_unique_nz := PyamgV.Canon.canonical_unique_nz
+/-- `sum_duplicates(); eliminate_zeros()` keeps the meaning, returns the canonical form, and its arrays are a
+function of the dense meaning alone; canonical matrices are its fixed points -/
+restate canoniser_meaning := PyamgV.Canon.val_canonNZ
+restate canoniser_canonical := PyamgV.Canon.canonNZ_canonical
+restate canoniser_unique := PyamgV.Canon.canonNZ_unique
+restate canoniser_fixed := PyamgV.Canon.canonNZ_fixed
+/-- the checker the driver runs decides `Canonical` -/
+restate canonical_checker := PyamgV.Canon.isCanonical_iff
+/-- which conversions return canonical CSR: COO and dense always; CSC iff no row index twice in a column (order in
+the column irrelevant); BSR iff block columns strictly sorted; CSR is taken as it is -/
+restate convert_canonical := PyamgV.Canon.toCsr_canonical
+restate convert_csc_canonical := PyamgV.Canon.cscToCsr_canonical
+restate convert_bsr_canonical := PyamgV.Canon.bsrToCsr_canonical
+restate convert_dense_canonical := PyamgV.Canon.denseToCsr_canonical
+/-- `sum_duplicates()` keeps the set of stored columns: zeros that arise by cancellation stay stored -/
+restate sum_duplicates_pattern := PyamgV.Canon.keys_canon
+/-- the stored pattern of the conversion in terms of the input (COO: every triple; CSC: its own pattern; dense: the
+non-zeros; BSR: every entry of every stored block) -/
+restate convert_pattern := PyamgV.Canon.stored_toCsr
+/-- same meaning + same stored pattern => the conversions return IDENTICAL arrays -/
+restate convert_arrays_unique := PyamgV.Canon.toCsr_arrays_unique
+restate convert_arrays_unique_nz := PyamgV.Canon.toCsr_arrays_unique_nz
+/-- hence the whole hierarchy, with an ARBITRARY step function (strength, splitting / aggregation, interpolation,
+smoothing, Galerkin product: any function of the arrays of the level matrix) and no `PStepOK` hypothesis -/
+restate hierarchy_format_independent_canonical := PyamgV.Canon.hierarchy_format_independent_canonical
+restate hierarchy_canonical_csr := PyamgV.Canon.hierarchy_canonical_csr
+restate constructor_format_independent_canonical := PyamgV.Canon.any_function_of_arrays
+/-- `PStepOK` holds for every construction of `P` that reads the level matrix through the canonical form -/
+restate pstep_ok_behind_canoniser := PyamgV.Canon.pstepOK_canon
+/-- the array-level model of the `pairwise_solver` step (C14 strength model + C12 kernel model + `T`) returns a
+well-formed `n x k` prolongator, `0 < k < n` -/
+restate pairwise_step_spec := PyamgV.Canon.pwRaw_spec
+/-- on canonical input without stored zeros the step behind the canonicaliser is the array-level step -/
+restate pairwise_step_raw := PyamgV.Canon.pwStep_eq_raw
+/-- `PStepOK` discharged for that path ... -/
+restate pairwise_pstep_ok := PyamgV.Canon.pwStep_ok
+/-- ... hence `hierarchy_format_independent` without hypothesis: any two stored forms of one matrix (unsorted,
+duplicates, explicit zeros) / any two input formats give level by level the same dense meaning -/
+restate pairwise_hierarchy_format_independent := PyamgV.Canon.pairwise_hierarchy_format_independent
+restate pairwise_hierarchy_input_independent := PyamgV.Canon.pairwise_hierarchy_input_independent
+/-- the instances the driver executes (`ext_c15_canon`) -/
+restate canon_driver_unique := PyamgV.Canon.CRatInst.canonNZC_unique
+restate canon_driver_canonical := PyamgV.Canon.CRatInst.canonNZC_canonical
+restate canon_driver_convert := PyamgV.Canon.CRatInst.toCsrC_unique
+
 /-! non-vacuity -/
 section spmm_examples
 open PyamgV.Spmm
@@ -139,6 +198,30 @@ example : ((PyamgV.Coarsen.build (fun A => A.rows) (gstep id pairStep) 10 0 10 [
         = [#[⟨2,0⟩], #[⟨2,0⟩, ⟨-1,0⟩, ⟨-1,0⟩, ⟨2,0⟩]] := by
   decide +kernel
 end spmm_examples
+section canon_examples
+open PyamgV.Spmm PyamgV.Canon
+/-- `[[2, 0], [0, 5]]` stored unsorted with a cancelling duplicate `(0, 1)`: 1 - 1, and canonically -/
+def messyA : Csr CRat := ⟨2, 2, #[0, 3, 4], #[1, 0, 1, 1], #[⟨1,0⟩, ⟨2,0⟩, ⟨-1,0⟩, ⟨5,0⟩]⟩
+def tidyA : Csr CRat := ⟨2, 2, #[0, 1, 2], #[0, 1], #[⟨2,0⟩, ⟨5,0⟩]⟩
+example : messyA.wf = true ∧ isCanonicalC messyA = false ∧ isCanonicalC tidyA = true ∧ noStoredZerosC tidyA = true := by
+  decide +kernel
+-- `sum_duplicates()` keeps the cancelled entry as a stored zero, `eliminate_zeros()` drops it: the canonical form
+example : (canonSDC messyA).aj = #[0, 1, 1] ∧ (canonSDC messyA).ax = #[⟨2,0⟩, ⟨0,0⟩, ⟨5,0⟩]
+    ∧ (canonNZC messyA).ap = tidyA.ap ∧ (canonNZC messyA).aj = tidyA.aj ∧ (canonNZC messyA).ax = tidyA.ax := by decide +kernel
+-- the COO and the dense input of the E27 examples have the same meaning but not the same stored pattern (the COO
+-- input stores a zero at (0, 0)): different arrays; without that triple the arrays are identical
+def cooX' : Input CRat := .coo ⟨2, 3, #[1, 0, 1, 1], #[2, 1, 2, 0], #[⟨1,0⟩, ⟨2,0⟩, ⟨3,0⟩, ⟨-3,0⟩]⟩
+example : (toCsrC cooX).aj ≠ (toCsrC denseX).aj ∧ (toCsrC cooX').ap = (toCsrC denseX).ap
+    ∧ (toCsrC cooX').aj = (toCsrC denseX).aj ∧ (toCsrC cooX').ax = (toCsrC denseX).ax
+    ∧ (toCsrC cooX').aj = (toCsrC cscX).aj ∧ (toCsrC cooX').ax = (toCsrC cscX).ax := by decide +kernel
+-- the pairwise step on `tridiag(-1, 2, -1)` of size 4, stored canonically and unsorted with a split entry: the
+-- array-level path pairs (0, 1), (2, 3) on both here; behind the canonicaliser the arrays it sees are the same
+def lapQ : Csr Rat := ⟨4, 4, #[0, 2, 5, 8, 10], #[0, 1, 0, 1, 2, 1, 2, 3, 2, 3], #[2, -1, -1, 2, -1, -1, 2, -1, -1, 2]⟩
+def lapQmessy : Csr Rat := ⟨4, 4, #[0, 3, 6, 9, 11], #[1, 0, 0, 2, 1, 0, 3, 2, 1, 3, 2], #[-1, 1, 1, -1, 2, -1, -1, 2, -1, 2, -1]⟩
+example : (pwStep "min" (1 / 1000000) (1 / 4) lapQ).map (fun P => (P.rows, P.cols, P.aj)) = some (4, 2, #[0, 0, 1, 1])
+    ∧ (canonNZ lapQmessy).ap = (canonNZ lapQ).ap ∧ (canonNZ lapQmessy).aj = (canonNZ lapQ).aj
+    ∧ (canonNZ lapQmessy).ax = (canonNZ lapQ).ax ∧ (canonNZ lapQ).aj = lapQ.aj := by decide +kernel
+end canon_examples
 open PyamgV.C15 in
 /-- a symbolic coarse solver: `factor = id`, `apply f b = (f, b)` -/
 def demoOps : Ops Nat (Nat × Nat) Nat :=
